@@ -584,7 +584,9 @@ func (c *Client) send(dest *net.UDPAddr, msg *dhcpv4.DHCPv4) (resp <-chan *dhcpv
 		close(done)
 
 		c.pendingMu.Lock()
-		if p, ok := c.pending[msg.TransactionID]; ok {
+		// Only remove our own registration: the receive loop may already have
+		// dropped it, and another call may have registered the same ID since.
+		if p, ok := c.pending[msg.TransactionID]; ok && p.done == done {
 			close(p.ch)
 			delete(c.pending, msg.TransactionID)
 		}
